@@ -31,6 +31,7 @@ type TypeEnv struct {
 	tags    map[string]int // type string -> type tag
 	tagList []types.Type
 	pureSigs map[string]string
+	heapRefKind map[string]string
 	immutable map[string]bool
 }
 
